@@ -95,7 +95,7 @@ RULE_SCHED = (
 @plan("C02")
 def c02(tier, seed):
     return dict(
-        jobs=[dict(kind="scale", pid="C02", n_cases=(5 if tier == "quick" else 12), deep=True, nmin=150, nmax=(350 if tier == "quick" else 700), **_seeds(seed + 315, k)) for k in range(1 if tier == "quick" else 4)] + medium_jobs("C02", tier, seed) + w3_jobs(seed) + sched_jobs(tier, seed, gen=dict(nmax=9, mc_max=4), selections=True)
+        jobs=[dict(kind="scale", pid="C02", n_cases=(5 if tier == "quick" else 12), deep=True, kinds=["fan_in", "fan_in", "grid", "binary", "chain"], nmin=150, nmax=(350 if tier == "quick" else 700), **_seeds(seed + 315, k)) for k in range(1 if tier == "quick" else 4)] + medium_jobs("C02", tier, seed) + w3_jobs(seed) + sched_jobs(tier, seed, gen=dict(nmax=9, mc_max=4), selections=True)
         # a dependency that RAISES has not returned either: failing nodes of every resource, nothing downstream may be entered
         + sched_jobs(tier, seed + 13, gen=dict(nmax=7, mc_max=3), faults=True, fault_rate=0.7, stress=False, dfs=False, scale=0.3)
         # executors that are run again (after a failure / a success), both flavours: no missing or stale values on the second run
@@ -163,7 +163,7 @@ def c03(tier, seed):
 @plan("C04")
 def c04(tier, seed):
     return dict(
-        jobs=[dict(kind="scale", pid="C04", n_cases=(4 if tier == "quick" else 10), deep=True, nmin=150, nmax=(350 if tier == "quick" else 700), **_seeds(seed + 312, k)) for k in range(1 if tier == "quick" else 4)] + medium_jobs("C04", tier, seed) + w3_jobs(seed) + sched_jobs(tier, seed, gen=dict(nmin=4, nmax=14, mc_max=8, max_deps=1, seq_rate=0.05), dfs_gen=dict(nmin=3))
+        jobs=[dict(kind="scale", pid="C04", n_cases=(4 if tier == "quick" else 10), kinds=["roots", "fan", "fan_below_sequential", "grid", "fan_in"], nmin=150, nmax=(350 if tier == "quick" else 700), **_seeds(seed + 312, k)) for k in range(1 if tier == "quick" else 4)] + medium_jobs("C04", tier, seed) + w3_jobs(seed) + sched_jobs(tier, seed, gen=dict(nmin=4, nmax=14, mc_max=8, max_deps=1, seq_rate=0.05), dfs_gen=dict(nmin=3))
         # resources decide the thread in EVERY execution mode: executors restricted by target / exclude / root nodes, setup nodes
         # (any resource) run by setup() or by the first call
         + sched_jobs(tier, seed + 21, gen=dict(nmin=3, nmax=9, mc_max=4, max_deps=2, setup_rate=0.3), selections=True, dfs=False, stress=False, scale=0.4)
@@ -181,7 +181,7 @@ def c04(tier, seed):
 @plan("C05")
 def c05(tier, seed):
     return dict(
-        jobs=[dict(kind="scale", pid="C05", n_cases=(4 if tier == "quick" else 10), deep=True, nmin=150, nmax=(350 if tier == "quick" else 700), **_seeds(seed + 313, k)) for k in range(1 if tier == "quick" else 4)] + medium_jobs("C05", tier, seed) + w3_jobs(seed) + sched_jobs(tier, seed, gen=dict(nmax=8, mc_max=4, seq_rate=0.4), selections=True)
+        jobs=[dict(kind="scale", pid="C05", n_cases=(4 if tier == "quick" else 10), kinds=["chain_beside_sequential", "fan_below_sequential", "fan_below_sequential", "roots"], nmin=150, nmax=(350 if tier == "quick" else 700), **_seeds(seed + 313, k)) for k in range(1 if tier == "quick" else 4)] + medium_jobs("C05", tier, seed) + w3_jobs(seed) + sched_jobs(tier, seed, gen=dict(nmax=8, mc_max=4, seq_rate=0.4), selections=True)
         + diff_jobs("C05", tier, seed, dict(flags=0.2, nest=0.3, nest_flag=0.2, share_fns=0.3, seq=0.4), 2, nj_scale=0.25, only=[])
         # nodes whose function is a DAG object, made sequential by a configuration reload: they overlap nothing either
         + [dict(kind="env", pid="C05", scenarios=["reentrant"], how="dag_object_as_node_function", n_cases=(60 if tier == "quick" else 500),
